@@ -263,6 +263,17 @@ func overlapCause(ps ...*canvas.Path) string {
 	return ""
 }
 
+// retracesOwnEdge: within ONE subpath two straight records are collinear (exactly, or within 4e-8 at both
+// ends of the common part) over more than 1e-6: the path goes back over an edge it has drawn.
+func retracesOwnEdge(p *canvas.Path) bool {
+	for _, sub := range p.Split() {
+		if overlappingLines(sub) {
+			return true
+		}
+	}
+	return false
+}
+
 // subGridVertices: two distinct record end points of the operands are closer than 2.5 cells of the
 // sweep's snap grid (BentleyOttmannEpsilon = 1e-8), the "sub-grid" class of the C01 residue analysis.
 func subGridVertices(ps ...*canvas.Path) bool {
@@ -465,9 +476,21 @@ func total(c *hc.Ctx, pool []*canvas.Path) {
 					cls = rayClass(p, x.pt)
 				}
 				switch cl.name {
-				case "Settle", "Offset", "Stroke":
+				case "Settle":
 					if strings.Contains(msg, "buggy intersection code") {
 						cls += overlapCause(p)
+					}
+				case "Offset", "Stroke":
+					if strings.Contains(msg, "buggy intersection code") {
+						cause := overlapCause(p)
+						if cause == "+overlapping-edges" || cause == "+sub-grid-vertices" || cause == "" {
+							// decided from the stroked path alone: one subpath runs back over its own straight edge
+							// (hairpin / retraced edge), so both sides of the outline repeat edges of each other
+							if retracesOwnEdge(p) {
+								cause = "+retraces-own-edge"
+							}
+						}
+						cls += cause
 					}
 				case "And", "Or", "Xor", "Not", "DivideBy":
 					if strings.Contains(msg, "buggy intersection code") {
